@@ -119,7 +119,10 @@ func propC11(t *rapid.T) {
 	{
 		o := genOpts{maxBlob: 12, backendKinds: []string{"ok", "ok", "error", "trailers_only", "http_status"}, segmentation: rapid.IntRange(0, 2).Draw(t, "use_segmentation") == 0}
 		sc := genScenario(t, o)
-		sc.Config.MaxMsg = uint32(rapid.SampledFrom([]int{0, 1 << 20, 1 << 20, 64, 1024}).Draw(t, "limit"))
+		// never the default limit (4 GiB): a hostile length prefix then makes the transcoder allocate
+		// gigabytes up front, which is within the configured limit but turns a loaded machine's
+		// slowness into apparent hangs
+		sc.Config.MaxMsg = uint32(rapid.SampledFrom([]int{1 << 22, 1 << 20, 1 << 20, 64, 1024}).Draw(t, "limit"))
 		sc.Config.Unknown = rapid.IntRange(0, 3).Draw(t, "unknown_handler") == 0
 		genHostile(t, sc)
 		if rapid.IntRange(0, 9).Draw(t, "no_flusher") == 0 {
